@@ -72,7 +72,7 @@ def run(chk):
     eq_reqs = []
     base = dict(psinorm_core=0.8, psinorm_sol=1.2, psinorm_pf=0.9, number_of_processors=1)
     mults = [0.5, 2.0] if chk.tier == "quick" else [0.05, 0.5, 1.0, 2.0, 20.0, None]
-    for fam, sign in (("lsn", 1), ("lsn", -1), ("usn", 1), ("cdn", 1), ("cdn_pert", 1), ("cdn_pert", -1), ("udn", 1), ("ldn", 1), ("udn2", 1)):
+    for fam, sign in (("lsn", 1), ("lsn", -1), ("usn", 1), ("cdn", 1), ("cdn_pert", 1), ("cdn_pert", -1), ("cdn_pert_m", 1), ("udn", 1), ("ldn", 1), ("udn2", 1)):
         for m in mults:
             o = dict(base, nx_core=rng.randint(3, 6), nx_sol=rng.randint(3, 6), psi_spacing_separatrix_multiplier=m)
             if fam in ("udn", "ldn", "udn2"):
